@@ -278,6 +278,9 @@ class MergedSequences(Generic[_ValueT]):
     if idx_seq == len(indices) and index > indices[-1]:
       return _MergedSequenceIndex(idx_seq - 1)
     if index == indices[idx_seq]:
+      # Skip the empty sequences that start (and end) at the same index.
+      while idx_seq + 1 < len(indices) and indices[idx_seq + 1] == index:
+        idx_seq += 1
       return _MergedSequenceIndex(idx_seq, 0)
     return _MergedSequenceIndex(idx_seq - 1, index - indices[idx_seq - 1])
 
